@@ -162,8 +162,13 @@ func (x *vc) execBlock(fr *frame, st *state, b *ssa.BasicBlock) bool {
 			c := x.value(fr, st, in.Cond)
 			if fr.top && x.topFC != nil && len(x.topFC.atifs) > 0 && c.T != "" {
 				if text, ok := fr.exprText[in.Cond]; ok {
+					if x.atifCount == nil {
+						x.atifCount = map[string]int{}
+					}
+					nth := x.atifCount[text]
+					x.atifCount[text] = nth + 1
 					for _, ai := range x.topFC.atifs {
-						if ai.cond != text {
+						if ai.cond != text || (ai.ordinal >= 0 && ai.ordinal != nth) {
 							continue
 						}
 						env := x.contractEnv(fr, st, nil)
